@@ -46,6 +46,9 @@ func ParseSwagger(spec *openapi3.Swagger, opts SchemaOptions) (*Spec, error) {
 
 	for _, pathKey := range sortedKeys(spec.Paths) {
 		pathItem := spec.Paths[pathKey]
+		if pathItem == nil {
+			return nil, fmt.Errorf("path %q: path item is empty", pathKey)
+		}
 		pi := NewPathItem(pathKey)
 		for _, method := range httpMethods() {
 			operation := pathItem.GetOperation(string(method.HTTP))
@@ -138,6 +141,8 @@ func NewSchema(schema *openapi3.Schema, components Sourcer[Schema], opts SchemaO
 			return nil, fmt.Errorf("new schema ref for items: %w", err)
 		}
 		out.Items = items
+	} else if schema.Type == "array" {
+		return nil, fmt.Errorf("'array' type: 'items' is not defined")
 	}
 	required := make(map[string]struct{})
 	for _, r := range schema.Required {
